@@ -821,4 +821,90 @@ theorem scanChunkedRaw_eq (cap k : Nat) (f : Bytes) (hb : LinesBounded cap f) :
   unfold scanFull
   rw [scanWindow_eq]
 
+/-! ### helpers of the property file -/
+
+theorem linesBounded_of_short (cap : Nat) (f : Bytes) (h : f.length ≤ cap) : LinesBounded cap f := by
+  intro a seg b hf _
+  have := congrArg List.length hf
+  simp at this; omega
+
+theorem lastNum_none (n : Nat) (t : List Header) (h : lastNum n t = none) : ∀ y ∈ t, y.num ≠ n := by
+  induction t with
+  | nil => intro y hy; cases hy
+  | cons b r ih =>
+    have e2 : lastNum n (b :: r) = (match lastNum n r with
+      | some x => some x
+      | none => if b.num = n then some b else none) := rfl
+    rw [e2] at h
+    rcases hr : lastNum n r with _ | w
+    · rw [hr] at h
+      intro y hy
+      rcases List.mem_cons.1 hy with hy | hy
+      · subst hy; intro hyn; simp [hyn] at h
+      · exact ih hr y hy
+    · rw [hr] at h; cases h
+
+theorem lastNum_spec (n : Nat) (hs : List Header) (x : Header) (h : lastNum n hs = some x)
+    (hp : hs.Pairwise (fun a b => a.off < b.off)) :
+    x ∈ hs ∧ x.num = n ∧ ∀ y ∈ hs, y.num = n → y.off ≤ x.off := by
+  induction hs with
+  | nil => simp [lastNum] at h
+  | cons a t ih =>
+    have e : lastNum n (a :: t) = (match lastNum n t with
+      | some x => some x
+      | none => if a.num = n then some a else none) := rfl
+    rw [e] at h
+    have hp' := List.pairwise_cons.1 hp
+    rcases ht : lastNum n t with _ | z
+    · rw [ht] at h
+      by_cases hn : a.num = n
+      · simp [hn] at h
+        subst h
+        refine ⟨List.mem_cons_self .., hn, ?_⟩
+        intro y hy hyn
+        rcases List.mem_cons.1 hy with hy | hy
+        · rw [hy]; exact Nat.le_refl _
+        · exact absurd hyn (lastNum_none n t ht y hy)
+      · simp [hn] at h
+    · rw [ht] at h
+      cases h
+      obtain ⟨h1, h2, h3⟩ := ih ht hp'.2
+      refine ⟨List.mem_cons_of_mem _ h1, h2, ?_⟩
+      intro y hy hyn
+      rcases List.mem_cons.1 hy with hy | hy
+      · have := hp'.1 x h1; rw [hy]; omega
+      · exact h3 y hy hyn
+
+theorem firstHit_no_j (seg lr : Bytes) (h : ∀ c ∈ seg, c ≠ 106) : firstHit lr seg = none := by
+  induction seg generalizing lr with
+  | nil => rfl
+  | cons c r ih =>
+    unfold firstHit
+    have hc : c ≠ 106 := h c (List.mem_cons_self ..)
+    have : hitAt c lr = none := by
+      unfold hitAt kwEnd
+      split
+      · rename_i hcc; split at hcc
+        · rename_i c' _ _ h1 _
+          exact absurd rfl hc
+        · cases hcc
+      · rfl
+    rw [this]
+    exact ih _ (fun x hx => h x (List.mem_cons_of_mem _ hx))
+
+/-- a byte string without the byte `j` (a classic cross-reference section, trailer dictionary,
+    `startxref`, `%%EOF`, digits, blanks — in any state of damage) contains no header line -/
+theorem specHeaders_no_j (t : Bytes) (base : Nat) (h : ∀ c ∈ t, c ≠ 106) : specHeaders t base = [] := by
+  unfold specHeaders
+  rw [List.filterMap_eq_nil_iff]
+  intro x hx
+  obtain ⟨a, b, h1, _, _, _, _⟩ := linesGo_mem t base [] (by simp) x hx
+  have hsub : ∀ c ∈ x.2, c ≠ 106 := by
+    intro c hc
+    apply h c
+    simp at h1
+    rw [h1]; simp [hc]
+  unfold lineHeader
+  rw [firstHit_no_j x.2 [] hsub]
+
 end OxiVerif.C19
